@@ -187,7 +187,7 @@ def gen_pairs(rng, n):
     return out[:n]
 
 
-def drive(det, model, pairs, kw, ctx, case, check_sims=True, label="seq"):
+def drive(det, model, pairs, kw, ctx, case, check_sims=True, label="seq", resets=()):
     """runs det over pairs under the tap; returns (trace, drifts) or None after a violation"""
     calls = []
     if not hasattr(det, "_sim_bounds"):
@@ -211,6 +211,11 @@ def drive(det, model, pairs, kw, ctx, case, check_sims=True, label="seq"):
     with rngtap.Tap() as tap:
         tapref["tap"] = tap
         for i, (yt, yp) in enumerate(pairs):
+            if i in resets:
+                # the user's own reset() between two samples: a new epoch starts here (confusion matrix, statistics, schedule)
+                det.reset()
+                model._new_epoch()
+                ctx.count("explicit_resets")
             np.random.seed(rngtap.seed_for(case.get("seed_key", case["id"]), i))
             del calls[:]
             if label_mode == 1:
@@ -220,7 +225,7 @@ def drive(det, model, pairs, kw, ctx, case, check_sims=True, label="seq"):
             else:
                 det.update(yt, yp)
             st = det.drift_state
-            base = dict(params=kw, pairs=pairs[: i + 1], step=i)
+            base = dict(params=kw, pairs=pairs[: i + 1], step=i, resets=sorted(r for r in resets if r <= i))
             err = model.update(yt, yp, [(c[0], c[1], c[2]) for c in calls])
             ctx.count("samples")
             if err:
@@ -277,7 +282,10 @@ def run_case(case, ctx):
         pairs = gen_pairs(rng, int(rng.integers(120, 320)))
     det = LinearFourRates(**gen.maybe_numpy(kw, case, ctx))
     model = LFRModel(kw)
-    r = drive(det, model, pairs, kw, ctx, case)
+    resets = set(case.get("literal", {}).get("resets", []))
+    if "literal" not in case and len(pairs) % 10 < 4:
+        resets = {int(v) for v in np.random.default_rng([len(pairs), 6]).integers(1, len(pairs), size=1 + len(pairs) % 3)}
+    r = drive(det, model, pairs, kw, ctx, case, resets=resets)
     if r is None:
         return
     trace, drifts = r
